@@ -5,7 +5,9 @@ import (
 	"context"
 	"fmt"
 	"math/rand/v2"
+	"runtime"
 	"sync"
+	"sync/atomic"
 	"testing"
 	"testing/synctest"
 	"time"
@@ -135,8 +137,23 @@ func scenario(t *testing.T, idx int64, r *rand.Rand) {
 	}
 	updates := 0
 	bad := false
-	synctest.Test(t, func(t *testing.T) {
-		dl, err := limiter.NewDefaultLimiter(rec, 1, 1, 0, windowSize, sk.st, limit.NoopLimitLogger{}, core.EmptyMetricRegistryInstance)
+	body := func(t *testing.T) {
+		var enforce core.Strategy = sk.st
+		if concurrent {
+			// schedule points between "estimate read" and "strategy updated": harmless under the limiter lock, an
+			// overtaking window if the update were moved outside it
+			var n atomic.Int64
+			yield := func() {
+				if n.Add(1)%3 != 0 {
+					for i := 0; i < 40; i++ {
+						runtime.Gosched()
+					}
+				}
+			}
+			rec.OnEstimate = yield
+			enforce = &inject.YieldStrategy{Inner: sk.st, BeforeSetLimit: func(int) { yield() }}
+		}
+		dl, err := limiter.NewDefaultLimiter(rec, 1, 1, 0, windowSize, enforce, limit.NoopLimitLogger{}, core.EmptyMetricRegistryInstance)
 		if err != nil {
 			panic(err)
 		}
@@ -176,13 +193,15 @@ func scenario(t *testing.T, idx int64, r *rand.Rand) {
 				go func(g int) {
 					defer wg.Done()
 					lr := rand.New(rand.NewPCG(seeds[g], 5))
-					for i := 0; i < 40; i++ {
+					for i := 0; i < 120; i++ {
 						l, ok := dl.Acquire(keyCtx(sk.keys[lr.IntN(len(sk.keys))]))
 						if !ok {
-							time.Sleep(time.Nanosecond)
+							runtime.Gosched()
 							continue
 						}
-						time.Sleep(time.Duration(1 + lr.IntN(5)))
+						if lr.IntN(2) == 0 {
+							runtime.Gosched()
+						}
 						if lr.IntN(6) == 0 {
 							l.OnDropped()
 						} else {
@@ -192,6 +211,7 @@ func scenario(t *testing.T, idx int64, r *rand.Rand) {
 				}(g)
 			}
 			wg.Wait()
+			rec.OnEstimate = nil
 			updates = rec.Count()
 			if s, ok := rec.Last(); ok {
 				verify("at-quiescence-after-concurrent-updates", s.EstAfter)
@@ -256,7 +276,14 @@ func scenario(t *testing.T, idx int64, r *rand.Rand) {
 				tk.Release()
 			}
 		}
-	})
+	}
+	if concurrent {
+		// real time: two updates can only follow each other closely if the clock moves while a goroutine is paused at a
+		// schedule point, which a bubble's virtual clock never does
+		body(t)
+	} else {
+		bubble(t, body)
+	}
 	rt.Count("scenarios/"+sk.name, 1)
 	rt.Count("updates_observed", int64(updates))
 	if concurrent {
@@ -276,4 +303,9 @@ func TestCheck(t *testing.T) {
 		rt.Case()
 		scenario(t, idx, r)
 	})
+}
+
+// bubble runs f in a synctest bubble; a bubble that cannot end (goroutines left blocked) is recorded, not fatal.
+func bubble(t *testing.T, f func(*testing.T)) {
+	rt.Bubble(func() { synctest.Test(t, f) }, "C05")
 }
